@@ -739,6 +739,10 @@ func (it *Interp) assignStmt(x *ast.AssignStmt) {
 			v = sym.Mul(l, r)
 		case token.QUO_ASSIGN:
 			v = sym.Div(l, r)
+		case token.OR_ASSIGN:
+			v = sym.Fn("bitor", l, r)
+		case token.AND_ASSIGN:
+			v = sym.Fn("bitand", l, r)
 		default:
 			it.undecided(x.Pos(), "op-assignment %s", x.Tok)
 		}
